@@ -10,7 +10,8 @@
 (*   1. cap  = the caller's gas limit if >= 21000 else the block gas limit; capped by the  *)
 (*      per-transaction cap (EIP-7825, Osaka only), by (balance - value) / feeCap when a   *)
 (*      fee cap is given, and by the RPC gas cap when non-zero;                            *)
-(*   2. a plain value transfer (no data, recipient without code) is tried at 21000 first;  *)
+(*   2. a plain value transfer (no data, recipient without code) is tried at 21000 first,   *)
+(*      provided the cap admits 21000;                                                      *)
 (*   3. the call is executed at the cap: a failure there is final;                         *)
 (*   4. lo = used - 1 is taken as a failing limit; the optimistic limit                    *)
 (*      (peak + stipend) * 64 / 63 is probed if it is below the cap;                       *)
@@ -71,7 +72,7 @@ Done(ok, g) == pc' = "done" /\ res' = [ok |-> ok, gas |-> g]
 (* step 2 *)
 Start ==
   /\ pc = "start"
-  /\ IF env.plain THEN pc' = "transfer" ELSE pc' = "cap"
+  /\ IF env.plain /\ cap >= TxGas THEN pc' = "transfer" ELSE pc' = "cap"
   /\ UNCHANGED <<lo, hi, cap, res, probes, env>>
 
 TransferP(o) ==
@@ -160,11 +161,11 @@ Minimal == Finished /\ res.ok /\ env.errShift = 0 /\ Monotone /\ UsedLowerBounds
 WithinRatio == Finished /\ res.ok /\ env.errShift > 0 /\ Monotone /\ UsedLowerBounds /\ res.gas # TxGas
              => \E g \in 0..res.gas : g \notin env.okset /\ ((res.gas - g) * (2 ^ env.errShift) < res.gas \/ g + 1 = res.gas)
 (* C37 (c): the estimate never exceeds the cap (funds, gas cap, transaction cap).          *)
-WithinCap == Finished /\ res.ok => res.gas <= cap \/ (res.gas = TxGas /\ env.plain)
+WithinCap == Finished /\ res.ok => res.gas <= cap
 (* a failure at the cap is reported as failure, never as an estimate                       *)
-FailsCleanly == Finished /\ cap \notin env.okset /\ ~(env.plain /\ TxGas \in env.okset) => ~res.ok
+FailsCleanly == Finished /\ cap \notin env.okset /\ ~(env.plain /\ cap >= TxGas /\ TxGas \in env.okset) => ~res.ok
 (* every probe stays within [0, cap] (apart from the fixed transfer probe)                 *)
-ProbesWithinCap == \A i \in 1..Len(probes) : probes[i] <= cap \/ (probes[i] = TxGas /\ env.plain)
+ProbesWithinCap == \A i \in 1..Len(probes) : probes[i] <= cap
 (* no gas limit is probed twice: the search makes progress                                 *)
 NoRepeat == \A i, j \in 1..Len(probes) : i < j /\ probes[i] = probes[j] => probes[i] = TxGas /\ env.plain /\ i = 1
 (* the documented algorithm refines the abstract search *)
